@@ -841,9 +841,71 @@ def full_range_loops(rep, prog, fn, rule, what, ret_true, expected):
     return infos
 
 
+def any_of_form(prog, fn, range_g):
+    """(lambda function, element parameter, returned predicate expression, any_of call) when the validator is
+    `return std::any_of(R.first, R.second, [..](const auto &e) { return P(e); });` with R = range_g(graph parameter)"""
+    from lib import par
+    rets = ex.returns_of(fn)
+    if len(rets) != 1 or not rets[0].c:
+        return None
+    c = rets[0].c[0].strip_all()
+    if not (c.k == 'CallExpr' and c.callee and c.callee['g'] == 'std::any_of' and len(c.args()) == 3):
+        return None
+    gparam = fn.param_ids[0]
+
+    def range_end(n, which):
+        s = n.strip_all()
+        if s.k == 'MemberExpr' and s.decl and s.decl.get('name') == which and s.c:
+            b = s.c[0].strip_all()
+            v = ex.var_of(b)
+            if v is not None:
+                d = ex.unique_def(fn, v)
+                b = d.strip_all() if d is not None else b
+            return b.k == 'CallExpr' and b.callee and b.callee['g'] == range_g and b.args() and ex.var_of(b.args()[0]) == gparam
+        return False
+    if not (range_end(c.args()[0], 'first') and range_end(c.args()[1], 'second')):
+        return None
+    fs, _ln = par.lambda_functions(prog, c.args()[2])
+    if len(fs) != 1 or len(fs[0].param_ids) != 1:
+        return None
+    lf = fs[0]
+    lrets = ex.returns_of(lf)
+    if len(lrets) != 1 or not lrets[0].c or lf.body is None or len([x for x in lf.body.c]) != 1:
+        return None
+    return lf, lf.param_ids[0], lrets[0].c[0], c
+
+
 def check_has_loops(rep, prog, fn):
     rule = 'R10e'
     what = 'has_loops: true iff some edge has source == target'
+    af = any_of_form(prog, fn, 'boost::edges')
+    if af is not None:
+        lf, ep, pexpr, call = af
+        g_ = fn.param_ids[0]
+
+        def endpoint_l(n, name):
+            s = n.strip_all()
+            v = ex.var_of(s)
+            if v is not None and v != ep:
+                d = ex.unique_def(lf, v)
+                return d is not None and endpoint_l(d, name)
+            return s.k == 'CallExpr' and s.callee and s.callee['g'] == 'boost::' + name and ex.var_of(s.args()[0]) == ep and ex.var_of(s.args()[1]) == g_
+
+        def atomize_l(leaf):
+            s = leaf.strip_all()
+            if s.k == 'BinaryOperator' and s.op in ('==', '!='):
+                a, b = s.c
+                if (endpoint_l(a, 'source') and endpoint_l(b, 'target')) or (endpoint_l(a, 'target') and endpoint_l(b, 'source')):
+                    f = ex.f_atom('loop')
+                    return f if s.op == '==' else ex.f_not(f)
+            return None
+        f = ex.formula(pexpr, lambda leaf: atomize_l(leaf) or ex.f_atom(('opaque', leaf.i)))
+        if f is None:
+            rep.undecided(rule, call, fn, what, 'predicate of std::any_of not understood')
+        else:
+            judge_predicate(rep, rule, call, lf, what, f, 'loop')
+            rep.ok(rule, call, fn, what + ' (false only after the whole scan)', 'std::any_of over the whole edge range')
+        return
     r = check_exists_function(rep, prog, fn, rule, what, 'edges', None)
     if r is None:
         return
@@ -927,24 +989,15 @@ def check_false_after(rep, rule, fn, what, falses):
 def check_has_non_positive(rep, prog, fn):
     rule = 'R10e'
     what = 'has_non_positive_weights: true iff some edge has weight <= 0'
-    r = check_exists_function(rep, prog, fn, rule, what, 'edges', None)
-    if r is None:
-        return
-    trues, falses = r
-    cfg = fn.cfg
     wparam = fn.param_ids[1] if len(fn.param_ids) > 1 else None
-    for rt in trues:
-        infos = full_range_loops(rep, prog, fn, rule, what, rt, ['boost::edges'])
-        if infos is None:
-            return
-        lp, rc, it = infos[0]
-        evars = deref_vars(fn, lp, it)
 
+    def judge(scope, evars, build, site):
+        """scope: function whose locals are resolved; evars: variables holding the current edge; build(atomize) -> formula of the hit"""
         def is_w(n):
             s = n.strip_all()
             v = ex.var_of(s)
             if v is not None and v != wparam:
-                d = ex.unique_def(fn, v)
+                d = ex.unique_def(scope, v)
                 return d is not None and is_w(d)
             if s.k == 'CallExpr' and s.callee and s.callee['g'] in ('boost::get',) and len(s.args()) == 2:
                 return ex.var_of(s.args()[0]) == wparam and (ex.var_of(s.args()[1]) in evars)
@@ -979,8 +1032,10 @@ def check_has_non_positive(rep, prog, fn):
                 return {'<': lt, '<=': ex.f_or(lt, eq), '>': gt, '>=': ex.f_or(gt, eq), '==': eq,
                         '!=': ex.f_or(lt, gt)}[op]
             return None
-        del thresholds[:]
-        f = guards_formula(cfg, rt, lambda leaf: atomize(leaf) or (ex.TRUE if is_loop_cond(leaf, infos) else None))
+        f = build(atomize)
+        if f is None:
+            rep.undecided(rule, site, fn, what, 'hit condition not understood')
+            return
         atoms = ex.f_atoms(f)
         ex.f_eval(f, {a: True for a in atoms})
         if thresholds:
@@ -989,22 +1044,127 @@ def check_has_non_positive(rep, prog, fn):
                           'the weight is compared with the non-zero constant %g: %s' % (
                               thr, 'strictly positive weights below it are reported as non-positive' if thr > 0 else 'a zero weight is not reported'),
                           key='%s|%s|threshold' % (rule, fn.g))
-            continue
+            return
         opaque = [a for a in atoms if isinstance(a, tuple)]
         if opaque:
-            n = fn.nodes.get(opaque[0][1])
-            rep.undecided(rule, rt, fn, what, '`return true` depends on the unrecognised condition `%s`' % (n.text(60) if n else '?'))
-            continue
+            n = scope.nodes.get(opaque[0][1])
+            rep.undecided(rule, site, fn, what, 'the hit depends on the unrecognised condition `%s`' % (n.text(60) if n else '?'))
+            return
         table = {}
         for name in ('lt', 'eq', 'gt'):
             envv = {'lt': name == 'lt', 'eq': name == 'eq', 'gt': name == 'gt'}
             table[name] = ex.f_eval(f, {a: envv[a] for a in atoms}) if atoms else ex.f_eval(f, {})
         if table == {'lt': True, 'eq': True, 'gt': False}:
-            rep.ok(rule, rt, fn, what, 'truth table over w<0, w==0, w>0 is (T,T,F)')
+            rep.ok(rule, site, fn, what, 'truth table over w<0, w==0, w>0 is (T,T,F)')
         else:
-            rep.violation(rule, rt, fn, what, 'truth table over (w<0, w==0, w>0) is %s, required (True, True, False)' % (
+            rep.violation(rule, site, fn, what, 'truth table over (w<0, w==0, w>0) is %s, required (True, True, False)' % (
                 (table['lt'], table['eq'], table['gt']),), key='%s|%s|predicate' % (rule, fn.g))
+
+    af = any_of_form(prog, fn, 'boost::edges')
+    if af is not None:
+        lf, ep, pexpr, call = af
+        judge(lf, {ep}, lambda atomize: ex.formula(pexpr, lambda leaf: atomize(leaf) or ex.f_atom(('opaque', leaf.i))), call)
+        rep.ok(rule, call, fn, what + ' (false only after the whole scan)', 'std::any_of over the whole edge range')
+        return
+    r = check_exists_function(rep, prog, fn, rule, what, 'edges', None)
+    if r is None:
+        return
+    trues, falses = r
+    cfg = fn.cfg
+    for rt in trues:
+        infos = full_range_loops(rep, prog, fn, rule, what, rt, ['boost::edges'])
+        if infos is None:
+            return
+        lp, rc, it = infos[0]
+        evars = deref_vars(fn, lp, it)
+        judge(fn, evars, lambda atomize: guards_formula(cfg, rt, lambda leaf: atomize(leaf) or (ex.TRUE if is_loop_cond(leaf, infos) else None)), rt)
     check_false_after(rep, rule, fn, what, falses)
+
+
+def judge_sorted_neighbours(prog, fn, rt, adj, g):
+    """has_multiple_edges by per-vertex neighbour list + sort + adjacent_find: the list must be fresh for every vertex, hold every neighbour,
+    be sorted before the search, and `return true` must be taken exactly when adjacent_find finds something"""
+    cfg = fn.cfg
+    cont = container_of_range(adj)
+    if cont is None:
+        return 'undecided', 'range of adjacent_find is not begin()/end() of one container'
+    loops = outer_loop_of(rt, fn)
+    if len(loops) != 1:
+        return 'undecided', '`return true` is not directly inside the vertex loop'
+    vloop = loops[0]
+    vinfo = range_loop_info(prog, fn, vloop)
+    if vinfo is None or vinfo[0].callee['g'] != 'boost::vertices' or not any(ex.var_of(a) == g for a in vinfo[0].args()):
+        return 'undecided', 'the outer loop is not a full loop over boost::vertices(g)'
+    if vloop.k == 'ForStmt' and [n for n in vloop.body.walk() if n.k in ('BreakStmt', 'GotoStmt') and n.enclosing('ForStmt', 'WhileStmt', 'DoStmt', 'CXXForRangeStmt') is vloop]:
+        return 'violation', 'the vertex scan is abandoned early by a break'
+    # the fill loop
+    pushes = [n for n in vloop.body.walk() if n.k == 'CXXMemberCallExpr' and n.callee and n.callee['name'] in ('push_back', 'emplace_back', 'insert') and
+              ex.var_of(n.object_arg()) == cont]
+    if len(pushes) != 1:
+        return 'undecided', '%d statements append to the neighbour list' % len(pushes)
+    pu = pushes[0]
+    floop = pu.enclosing('ForStmt', 'WhileStmt', 'CXXForRangeStmt')
+    finfo = range_loop_info(prog, fn, floop) if floop is not None and floop is not vloop else None
+    if finfo is None or finfo[0].callee['g'] not in ('boost::out_edges', 'boost::adjacent_vertices'):
+        return 'undecided', 'the neighbour list is not filled by a full loop over out_edges(v, g)'
+    if body_conditional(floop, pu):
+        return 'violation', 'a neighbour is appended only conditionally (line %d): a duplicate among the skipped ones is missed' % pu.line
+    if [n for n in floop.body.walk() if n.k in ('BreakStmt', 'ContinueStmt', 'GotoStmt', 'ReturnStmt')]:
+        return 'undecided', 'the fill loop has early exits'
+    val = pu.args()[-1].strip_all()
+    vv = ex.var_of(val)
+    if vv is not None:
+        d = ex.unique_def(fn, vv)
+        val = d.strip_all() if d is not None else val
+    if not (val.k == 'CallExpr' and val.callee and val.callee['g'] in ('boost::opposite', 'boost::target')) and finfo[0].callee['g'] != 'boost::adjacent_vertices':
+        return 'undecided', 'appended value `%s` is not the far endpoint of the edge' % pu.args()[-1].text(30)
+    # freshness per vertex
+    decl = [n for n in fn.walk() if n.k == 'VarDecl' and n.decl_id == cont]
+    fresh = bool(decl) and vloop.body.is_ancestor_of(decl[0]) and decl[0].enclosing('ForStmt', 'WhileStmt', 'CXXForRangeStmt', 'DoStmt') is vloop
+    clears = [n for n in vloop.body.walk() if n.k == 'CXXMemberCallExpr' and n.callee and n.callee['name'] == 'clear' and ex.var_of(n.object_arg()) == cont and
+              n.enclosing('ForStmt', 'WhileStmt', 'CXXForRangeStmt', 'DoStmt') is vloop and not body_conditional(vloop, n)]
+    first_in_floop = floop.body if floop.body is not None else floop
+    if not fresh and not [c for c in clears if cfg.dominates(c, pu)]:
+        return 'violation', ('the neighbour list `%s` is neither declared inside the vertex loop nor cleared at the start of every iteration: neighbours of earlier '
+                             'vertices stay in it and two different vertices sharing a neighbour are reported as a multiple edge' % prog.vars[cont]['name'])
+    # sort between fill and search
+    sorts = [n for n in fn.walk() if n.k == 'CallExpr' and n.callee and n.callee['g'] in ('std::sort', 'std::stable_sort') and container_of_range(n) == cont and
+             cfg.dominates(n, adj) and n.enclosing('ForStmt', 'WhileStmt', 'CXXForRangeStmt', 'DoStmt') is vloop]
+    def top_index(n):
+        x = n
+        while x is not None and x.parent is not vloop.body:
+            x = x.parent
+        return vloop.body.c.index(x) if x is not None and x in vloop.body.c else None
+    sorts = [n for n in sorts if top_index(n) is not None and top_index(floop) is not None and top_index(n) > top_index(floop)]
+    if not sorts:
+        return 'violation', 'the list is not sorted (after being filled) before adjacent_find: duplicates that are not adjacent are missed'
+    if len(sorts[0].args()) == 3:
+        cmpn = sorts[0].args()[2].strip_all()
+        ct = (prog.base_type(cmpn.j.get('t')) or {}).get('canon') or ''
+        if not (ct.startswith('std::less') or ct.startswith('std::greater')):
+            return 'undecided', 'custom sort comparator'
+    # the hit: adjacent_find(...) != end
+    def atomize(leaf):
+        s = leaf.strip_all()
+        if s.k in ('CXXOperatorCallExpr', 'BinaryOperator') and s.op in ('==', '!='):
+            ops = s.c[1:] if s.k == 'CXXOperatorCallExpr' else s.c
+            for a, b in ((ops[0], ops[1]), (ops[1], ops[0])):
+                aa, bb = a.strip_all(), b.strip_all()
+                av = ex.var_of(aa)
+                if av is not None:
+                    d = ex.unique_def(fn, av)
+                    aa = d.strip_all() if d is not None else aa
+                if aa is adj and bb.k == 'CXXMemberCallExpr' and bb.callee and bb.callee['name'] in ('end', 'cend') and ex.var_of(bb.object_arg()) == cont:
+                    f = ex.f_atom('dup')
+                    return f if s.op == '!=' else ex.f_not(f)
+        return None
+    f = guards_formula(cfg, rt, lambda leaf: atomize(leaf) or (ex.TRUE if (vloop.cond is not None and (vloop.cond.strip() is leaf or vloop.cond.is_ancestor_of(leaf))) else None))
+    atoms = ex.f_atoms(f)
+    if [a for a in atoms if a != 'dup']:
+        return 'undecided', '`return true` depends on a condition outside the idiom'
+    if atoms == ['dup'] and ex.f_eval(f, {'dup': True}) and not ex.f_eval(f, {'dup': False}):
+        return 'ok', 'per-vertex neighbour list, sorted, `return true` iff adjacent_find finds two equal consecutive neighbours'
+    return 'violation', '`return true` is not taken exactly when adjacent_find reports a duplicate'
 
 
 def check_has_multiple(rep, prog, fn):
@@ -1031,7 +1191,14 @@ def check_has_multiple(rep, prog, fn):
                                   'neighbour separated by another edge are missed' % a.callee['name'],
                                   key='%s|%s|unsorted-adjacent' % (rule, fn.g))
                     return
-            rep.undecided(rule, rt, fn, what, 'sort + adjacent_find idiom: per-vertex freshness of the sequence not decidable here')
+            verdict, detail = judge_sorted_neighbours(prog, fn, rt, adj[0], g)
+            if verdict == 'ok':
+                rep.ok(rule, rt, fn, what, detail)
+                check_false_after(rep, rule, fn, what, falses)
+            elif verdict == 'violation':
+                rep.violation(rule, rt, fn, what, detail, key='%s|%s|sorted-neighbours' % (rule, fn.g))
+            else:
+                rep.undecided(rule, rt, fn, what, 'sort + adjacent_find idiom: ' + detail)
             return
         encl = outer_loop_of(rt, fn)
         if len(encl) == 1:
